@@ -4,5 +4,5 @@ Require Import ExtrOcamlBasic.
 From Quiver Require Import repl.Repl.
 Extraction Language OCaml.
 Extraction "extracted/repl_model.ml"
-  initial evaluate run_history request_variable get_variables keep_indices local_count compact
+  initial forget evaluate run_history request_variable get_variables keep_indices local_count compact
   session_of run_seq run_lines line_values.
